@@ -768,6 +768,7 @@ def gen_valid(rng, tier):
     for res in (3, 99, 255):
         cases.append(mk(5, struct.pack('!HBB', 1, res, 1), 'as4-all', 'valid', 'refresh-unknown-subtype', model=True))
     # nothing above may exceed the negotiated message size (it would not be a valid message)
+    cases += gen_families(rng, tier)
     return [x for x in cases if len(x['body']) + 19 <= ctx(x['ctx']).msg_size]
 
 
@@ -1971,4 +1972,109 @@ def gen_open_boundaries(rng, tier):
             left -= take
         x = open_body(rng, caps, 'extended')
         cases.append(mk(1, x.b, rng.choice(CTXS), 'valid', 'open-extended-parameters', x.marks, model=True, n=total))
+    return cases
+
+
+# ------------------------------------------------------------------------------- every family, every legal next hop
+
+
+def family_routes():
+    """(afi, safi) -> (name, [one well-formed NLRI, written from the RFC that defines the family], [legal next hops])
+    A next hop is (octets, what).  Forms whose legality is not beyond doubt are left out."""
+    v4, v4b = bytes([192, 0, 2, 1]), bytes([192, 0, 2, 2])
+    v6 = bytes([0x20, 1, 0x0d, 0xb8] + [0] * 11 + [1])
+    ll = bytes([0xfe, 0x80] + [0] * 13 + [1])
+    rd0 = bytes(8)
+    rd = struct.pack('!HHL', 0, 65000, 1)                      # RFC 4364 4.2: type 0, AS 65000, number 1
+    label = bytes([0x00, 0x06, 0x41])                          # label 100, bottom of stack (RFC 8277 2.2)
+    mac = bytes([0x00, 0x11, 0x22, 0x33, 0x44, 0x55])
+    out = {}
+    # RFC 4760 / RFC 4271: length in bits, prefix
+    out[(1, 1)] = ('ipv4 unicast', bytes([24, 10, 1, 2]), [(v4, 'ipv4')])
+    out[(1, 2)] = ('ipv4 multicast', bytes([24, 10, 1, 2]), [(v4, 'ipv4')])
+    # RFC 2545 3: global, or global + link-local
+    out[(2, 1)] = ('ipv6 unicast', bytes([32, 0x20, 1, 0x0d, 0xb8]), [(v6, 'global'), (v6 + ll, 'global+link-local')])
+    out[(2, 2)] = ('ipv6 multicast', bytes([32, 0x20, 1, 0x0d, 0xb8]), [(v6, 'global'), (v6 + ll, 'global+link-local')])
+    # RFC 8277 2.2: length (label bits included), label, prefix
+    out[(1, 4)] = ('ipv4 labelled', bytes([24 + 24]) + label + bytes([10, 1, 2]), [(v4, 'ipv4')])
+    out[(2, 4)] = ('ipv6 labelled', bytes([24 + 32]) + label + bytes([0x20, 1, 0x0d, 0xb8]), [(v6, 'global'), (v6 + ll, 'global+link-local')])
+    # RFC 4364 4.3.2 / 4.3.4: label, RD, prefix; next hop = VPN-IPv4 address with a zero RD
+    out[(1, 128)] = ('vpn-ipv4', bytes([24 + 64 + 24]) + label + rd + bytes([10, 1, 2]), [(rd0 + v4, 'rd0+ipv4')])
+    # RFC 4659 3.2.1: 24 (RD 0 + global) or 48 (RD 0 + global, RD 0 + link-local)
+    out[(2, 128)] = ('vpn-ipv6', bytes([24 + 64 + 32]) + label + rd + bytes([0x20, 1, 0x0d, 0xb8]),
+                     [(rd0 + v6, 'rd0+global'), (rd0 + v6 + rd0 + ll, 'rd0+global,rd0+link-local')])
+    # RFC 8955 4 / RFC 8956 3: NLRI length, components; destination prefix component.  "next hop length ... 0" is the rule,
+    # a next hop of the AFI's own kind is what RFC 8955 4 tolerates ("MAY be set to a non-zero value")
+    out[(1, 133)] = ('ipv4 flow', bytes([5, 1, 24, 10, 1, 2]), [(b'', 'none'), (v4, 'ipv4')])
+    out[(2, 133)] = ('ipv6 flow', bytes([7, 1, 32, 0, 0x20, 1, 0x0d, 0xb8]), [(b'', 'none'), (v6, 'global')])
+    # RFC 8955 8: RD first
+    out[(1, 134)] = ('ipv4 flow-vpn', bytes([13]) + rd + bytes([1, 24, 10, 1, 2]), [(b'', 'none')])
+    out[(2, 134)] = ('ipv6 flow-vpn', bytes([15]) + rd + bytes([1, 32, 0, 0x20, 1, 0x0d, 0xb8]), [(b'', 'none')])
+    # RFC 4684 4: origin AS, route target (96 bits); the default target is the zero-length prefix
+    rt = bytes([0x00, 0x02]) + struct.pack('!HL', 65000, 1)
+    out[(1, 132)] = ('rtc', bytes([96]) + struct.pack('!L', 65000) + rt, [(v4, 'ipv4'), (v6, 'ipv6')])
+    # RFC 4761 3.2.2: length 17, RD, VE ID, VE block offset, VE block size, label base
+    out[(25, 65)] = ('vpls', struct.pack('!H', 17) + rd + struct.pack('!HHH', 1, 1, 8) + bytes([0x00, 0x06, 0x41]), [(v4, 'ipv4')])
+    # RFC 7432 7.3 Inclusive Multicast Ethernet Tag route: RD, Ethernet tag, IP length, originating router; 7.2 MAC/IP route
+    imet = rd + bytes(4) + bytes([32]) + v4
+    macip = rd + bytes(10) + bytes(4) + bytes([48]) + mac + bytes([0]) + label
+    out[(25, 70)] = ('evpn', bytes([3, len(imet)]) + imet + bytes([2, len(macip)]) + macip, [(v4, 'ipv4'), (v6, 'ipv6')])   # RFC 7432 9
+    # RFC 6514 4.5 Source Active A-D route: RD, source length + source, group length + group; RFC 6515 2: the next hop is an
+    # IPv4 or an IPv6 address (no RD), whatever the AFI of the route
+    sa4 = rd + bytes([32]) + v4 + bytes([32, 232, 1, 1, 1])
+    sa6 = rd + bytes([128]) + v6 + bytes([128, 0xff, 0x3e] + [0] * 13 + [1])
+    out[(1, 5)] = ('mvpn ipv4', bytes([5, len(sa4)]) + sa4, [(v4, 'ipv4'), (v6, 'ipv6')])
+    out[(2, 5)] = ('mvpn ipv6', bytes([5, len(sa6)]) + sa6, [(v4, 'ipv4'), (v6, 'ipv6')])
+    # RFC 9552 5.2: NLRI type 1 (node), length, protocol-id, identifier, local node descriptors (AS, BGP-LS id, IGP router-id)
+    desc = struct.pack('!HHL', 512, 4, 65000) + struct.pack('!HHL', 513, 4, 0) + struct.pack('!HH', 515, 6) + bytes([0, 0, 0, 0, 0, 1])
+    node = bytes([2]) + bytes(8) + struct.pack('!HH', 256, len(desc)) + desc
+    out[(16388, 71)] = ('bgp-ls', struct.pack('!HH', 1, len(node)) + node, [(v4, 'ipv4'), (v6, 'ipv6')])
+    out[(16388, 72)] = ('bgp-ls-vpn', struct.pack('!HH', 1, 8 + len(node)) + rd + node, [(rd0 + v4, 'rd0+ipv4'), (rd0 + v6, 'rd0+ipv6')])
+    # RFC 9830 2.1: NLRI length in bits, distinguisher, color, endpoint
+    out[(1, 73)] = ('sr-policy ipv4', bytes([96]) + struct.pack('!LL', 1, 100) + v4b, [(v4, 'ipv4')])
+    out[(2, 73)] = ('sr-policy ipv6', bytes([192]) + struct.pack('!LL', 1, 100) + v6, [(v6, 'ipv6')])
+    # draft-ietf-bess-mup-safi 3.1.1 Interwork Segment Discovery route: architecture type 1 (3gpp-5g), route type 1, length, RD, prefix
+    isd4 = rd + bytes([24, 10, 1, 2])
+    isd6 = rd + bytes([32, 0x20, 1, 0x0d, 0xb8])
+    out[(1, 85)] = ('mup ipv4', bytes([1]) + struct.pack('!HB', 1, len(isd4)) + isd4, [(v4, 'ipv4')])
+    out[(2, 85)] = ('mup ipv6', bytes([1]) + struct.pack('!HB', 1, len(isd6)) + isd6, [(v6, 'ipv6')])
+    return out
+
+
+# RFC 8950 4: an IPv6 next hop (global, or global + link-local; VPN: with a zero RD in front of each) for IPv4 NLRI
+def rfc8950_nexthops(safi):
+    v6 = bytes([0x20, 1, 0x0d, 0xb8] + [0] * 11 + [1])
+    ll = bytes([0xfe, 0x80] + [0] * 13 + [1])
+    rd0 = bytes(8)
+    if safi == 128:
+        return [(rd0 + v6, 'rfc8950 rd0+global'), (rd0 + v6 + rd0 + ll, 'rfc8950 rd0+global,rd0+link-local')]
+    return [(v6, 'rfc8950 global'), (v6 + ll, 'rfc8950 global+link-local')]
+
+
+def gen_families(rng, tier):
+    """for every family the session negotiated: a well-formed MP_REACH_NLRI UPDATE with each next hop form the family's RFC
+    allows, and the matching MP_UNREACH_NLRI.  Valid: must be decoded"""
+    cases = []
+    table = family_routes()
+    for ctxn in ('as4-all', 'ext-all', 'as2-few'):
+        c = ctx(ctxn)
+        negotiated = {(int(a), int(s)) for a, s in c.neg.families}
+        ext = {(int(a), int(s)) for a, s, _ in c.neg.nexthop}
+        for (afi, safi), (name, nlri, hops) in sorted(table.items()):
+            if (afi, safi) not in negotiated:
+                continue
+            forms = list(hops) + (rfc8950_nexthops(safi) if (afi, safi) in ext else [])
+            extra = []
+            if safi == 73:
+                # RFC 9830 2.2: the policy travels in the Tunnel Encapsulation attribute, tunnel type 15 (here without sub-TLV);
+                # 4.2.1: NO_ADVERTISE when no route target is attached
+                extra = [attr(0xC0, 23, struct.pack('!HH', 15, 0)), attr(0xC0, 8, struct.pack('!L', 0xFFFFFF02))]
+            for nh, what in forms:
+                for k in (1, 3):
+                    val = struct.pack('!HBB', afi, safi, len(nh)) + nh + b'\x00' + nlri * k
+                    x = update(mandatory(rng, c, nh=False) + extra + [attr(0x80, 14, val)])
+                    cases.append(mk(2, x.b, ctxn, 'valid', f'mp-reach-{name.replace(" ", "-")}-nexthop-{len(nh)}' + ('' if k == 1 else f'-x{k}'), x.marks,
+                                    family=[afi, safi], nexthop=what))
+            x = update([attr(0x80, 15, struct.pack('!HB', afi, safi) + nlri)])
+            cases.append(mk(2, x.b, ctxn, 'valid', f'mp-unreach-{name.replace(" ", "-")}', x.marks, family=[afi, safi]))
     return cases
